@@ -102,12 +102,12 @@ theorem cnt1_le_wtXZ_right : ∀ (xs zs : List Nat), xs.length = zs.length → c
 
 /-! ### X part and Z part of an operator -/
 
-theorem xPart_append (a b : List Nat) (h : a.length = b.length) : xPart (a ++ b) = a := by
+theorem xPart_append_dist (a b : List Nat) (h : a.length = b.length) : xPart (a ++ b) = a := by
   have : (a ++ b).length / 2 = a.length := by simp [List.length_append]; omega
   rw [xPart, this, List.take_left']
   rfl
 
-theorem zPart_append (a b : List Nat) (h : a.length = b.length) : zPart (a ++ b) = b := by
+theorem zPart_append_dist (a b : List Nat) (h : a.length = b.length) : zPart (a ++ b) = b := by
   have : (a ++ b).length / 2 = a.length := by simp [List.length_append]; omega
   rw [zPart, this, List.drop_left']
   rfl
@@ -172,13 +172,13 @@ theorem isCSSMask_sound (n : Nat) (stabs : List Nat) (h : isCSSMask n stabs = tr
 theorem symp_xpart (n : Nat) (g v : List Nat) (hv : v.length = 2 * n) :
     symp g (xPart v ++ List.replicate n 0) = dot (zPart g) (xPart v) % 2 := by
   unfold symp
-  rw [xPart_append _ _ (by simp [xPart_len hv]), zPart_append _ _ (by simp [xPart_len hv]),
+  rw [xPart_append_dist _ _ (by simp [xPart_len hv]), zPart_append_dist _ _ (by simp [xPart_len hv]),
     dot_replicate_zero_right, Nat.zero_add]
 
 theorem symp_zpart (n : Nat) (g v : List Nat) (hv : v.length = 2 * n) :
     symp g (List.replicate n 0 ++ zPart v) = dot (xPart g) (zPart v) % 2 := by
   unfold symp
-  rw [xPart_append _ _ (by simp [zPart_len hv]), zPart_append _ _ (by simp [zPart_len hv]),
+  rw [xPart_append_dist _ _ (by simp [zPart_len hv]), zPart_append_dist _ _ (by simp [zPart_len hv]),
     dot_replicate_zero_right, Nat.add_zero]
 
 /-- For a CSS code, a non-trivial logical operator has a non-trivial logical X part or a
@@ -258,13 +258,13 @@ theorem checkExhaustiveCSS_sound (c : MaskCode)
       (Nat.le_trans (cnt1_le_wtXZ_left _ _ (by rw [hx, hz])) hw)
     rw [Nat.zero_xor, ← effList_zeros_right, hx] at hgood
     apply effect_not_harmless c hv _ hu
-    rw [xPart_append _ _ (by simp [hx]), zPart_append _ _ (by simp [hx])]
+    rw [xPart_append_dist _ _ (by simp [hx]), zPart_append_dist _ _ (by simp [hx])]
     exact hgood
   · have hgood := exhB1_cover _ _ _ _ hZ (zPart v)
       (Nat.le_trans (cnt1_le_wtXZ_right _ _ (by rw [hx, hz])) hw)
     rw [Nat.zero_xor, ← effList_zeros_left, hz] at hgood
     apply effect_not_harmless c hv _ hu
-    rw [xPart_append _ _ (by simp [hz]), zPart_append _ _ (by simp [hz])]
+    rw [xPart_append_dist _ _ (by simp [hz]), zPart_append_dist _ _ (by simp [hz])]
     exact hgood
 
 end Panqec
